@@ -436,6 +436,13 @@ func (p *Element) Neg(p1 *Element) *Element {
 
 // ScalarMul sets p to p1*s.
 func (p *Element) ScalarMul(p1 *Element, scalarMont *fr.Element) *Element {
+	// Every multiple of the neutral element (x = 0, y != 0) is the neutral element. The GLV
+	// scalar multiplication below must not see it: its endomorphism maps (0:y:z) to the
+	// invalid point (0:0:0), which it then returns for every scalar that has a non-zero
+	// endomorphism component.
+	if p1.inner.X.IsZero() && !p1.inner.Y.IsZero() {
+		return p.SetIdentity()
+	}
 	var bigScalar big.Int
 	scalarMont.ToBigIntRegular(&bigScalar)
 	p.inner.ScalarMultiplication(&p1.inner, &bigScalar)
